@@ -76,6 +76,13 @@ def units(rng, tier):
             fmt = rng.choice(gen.FORMATS)
             ids = gen.ids_for(rng, len(v))
             us += group(lambda out, a=a, C=C, v=v, fmt=fmt, ids=ids, fam=fam: pack_unit(a, C, v, rng, fmt=fmt, out=out, cmp="bins", family=fam, ids=ids))
+    # bin completion where its search runs (best-fit-decreasing misses the volume bound; near-perfect packings): the two bins-managers
+    # must prune the same branches, so every output type describes the same packing
+    from harness.pcommon import hard_bc_instances
+    for C, v in hard_bc_instances(rng, 2500 if tier == "quick" else 30000, 150 if tier == "quick" else 2000):
+        ids = gen.ids_for(rng, len(v))
+        fmt = rng.choice(["list", "list", "dict_str"])
+        us += group(lambda out, C=C, v=v, fmt=fmt, ids=ids: pack_unit("bc", C, v, rng, fmt=fmt, out=out, cmp="bins", family="bc-search-runs(screened)", ids=ids))
     # complete KK with five bins and many equal small values: its two managers de-duplicate search states differently
     for _ in range(60 if tier == "quick" else 800):
         hi = rng.choice([3, 6, 6, 10])
